@@ -159,3 +159,23 @@ package dtls
 //@   ensures @C16: true
 //@ loop 1:
 //@   invariant c != nil && c.stream != nil
+
+// ---------------- C16: write flow control ----------------
+// "A writer that outpaces the network is held back so that buffered data stays bounded": a message is handed to the
+// stream only if it fits under the limit together with what is already buffered (mathematically - no wrap-around of
+// the unsigned arithmetic can make an over-full buffer look empty) or after the writer has waited for the drain signal;
+// an empty write does not reach the stream. (That a single message never exceeds half the limit is checked by the
+// code before it takes the lock; the limit is a package variable, so the clause is not restated after the wait.)
+//@ func (s msgStream) BufferedAmount() uint64
+//@   ensures result >= 0
+//@   assigns nothing
+//@ func (s msgStream) Write(p []byte) (int, error)
+//@   assigns nothing
+//@ func (s *SCTPConn) Write(b []byte) (int, error)
+//@   requires s != nil && s.stream != nil && !held(&s.writeMutex)
+//@   atcall BufferedAmount after: snap buffered := res
+//@   atcall <select> before: snap waited := true
+//@   atcall msgStream).Write before: assert @C16: len(b) > 0
+//@   atcall msgStream).Write before: assert @C16: arg1 == b && held(&s.writeMutex)
+//@   atcall msgStream).Write before: assert @C16: defined(buffered) && (buffered + len(b) <= writeMaxBufferedAmount || defined(waited))
+//@   ensures @C16: !held(&s.writeMutex)
